@@ -852,11 +852,30 @@ def frame_locals_rule(ctx, R):
         if pe is None:
             continue
         accesses = []
+        # depth of every local that holds a frame: currentframe() is depth 0, each .f_back one more (temporaries such as parse_frame = frame.f_back.f_back are followed)
+        depth_of = {}
+
+        def chain_depth(e):
+            k = 0
+            while isinstance(e, ast.Attribute) and e.attr == 'f_back':
+                k, e = k + 1, e.value
+            if isinstance(e, ast.Name) and e.id in depth_of:
+                return depth_of[e.id] + k
+            if isinstance(e, ast.Call) and u(e.func).split('.')[-1] in ('currentframe', '_getframe'):
+                base = e.args[0].value if e.args and isinstance(e.args[0], ast.Constant) and isinstance(e.args[0].value, int) else 0
+                return base + k
+            return None
+        for _ in range(4):
+            for n in ast.walk(pe):
+                if isinstance(n, ast.Assign) and len(n.targets) == 1 and isinstance(n.targets[0], ast.Name):
+                    d_ = chain_depth(n.value)
+                    if d_ is not None:
+                        depth_of[n.targets[0].id] = d_
         for n in ast.walk(pe):
             if isinstance(n, ast.Subscript) and isinstance(n.value, ast.Attribute) and n.value.attr == 'f_locals' and isinstance(n.slice, ast.Constant) and isinstance(n.slice.value, str):
-                k, e = 0, n.value.value
-                while isinstance(e, ast.Attribute) and e.attr == 'f_back':
-                    k, e = k + 1, e.value
+                k = chain_depth(n.value.value)
+                if k is None:
+                    raise AnalysisError('%s.p_error: cannot tell which frame `%s` is' % (gm.name, u(n.value.value)))
                 accesses.append((k, n.slice.value, n))
         if not accesses:
             continue
